@@ -472,3 +472,40 @@ for _fwd in _native_variants():
                 return {'native': 'ListIndexSet', 'ok': ok}
             _finish(res, e, e.explore(path), 'C11.K2:index_set:')
     _mkn()
+
+
+for _fwd in (0, 1, 2):
+    def _mkc(fwd=_fwd):
+        sfx = ('', '.forwarded', '.forwarded2')[fwd]
+
+        @obligation('C11.K2.native_clear' + sfx, 'C11', programs=('vm',), also=('C10',))
+        def n_clear(res, tier):
+            """list.clear() on a list reached through an alias that is 0 / 1 / 2 forwarding hops behind the live vector: afterwards the
+            list is empty for every alias, the capacity and the blocks are untouched"""
+            res.bounds = {'length': '0..3 (the native pops element by element)', 'capacity': 'any', 'start state': ('fresh', 'forwarded once', 'forwarded twice')[fwd]}
+            W = NativeWorld()
+            e = W.e
+            e.loop_bound = 8
+
+            def path(e):
+                lst, blk0, seq, n, cap = W.new_list(e, max_len=None)
+                e.add_constraint(z3.ULE(n, 3))
+                cur = cap
+                if fwd >= 1:
+                    new1, _, ncap = W.grow_once(e, lst, n, cap)
+                    cur = ncap
+                if fwd >= 2:
+                    _, _, ncap2 = W.grow_once(e, new1, n, ncap, 'grown_cap2')
+                    cur = ncap2
+                nblocks = len(e.path_state['blocks'])
+                r = W.call_native(e, 'ListClear', [W.list_value(e, lst)])
+                fin = W.final_block(e, blk0)
+                ln, cp, el = W.view(e, fin)
+                e.check(isinstance(r, EnumV) and r.tag == 0, 'clear: succeeds')
+                e.check(ln == 0, 'clear: the live vector is empty afterwards')
+                e.check(cp == cur, 'clear: the capacity is unchanged')
+                e.check(len(e.path_state['blocks']) == nblocks, 'clear: no block is obtained')
+                W.alias_sees(e, lst, fin, 'clear')
+                return {'native': 'ListClear', 'hops': fwd}
+            _finish(res, e, e.explore(path), 'C11.K2:clear:')
+    _mkc()
